@@ -230,6 +230,15 @@ class G:
 
     def typed(self, d, env):
         r = self.r
+        if r.chance(30):
+            # attribute matchers `Type.<type>.<attr>`: the attribute is read from every field of that type, also inside
+            # nested records (r.sub.m); chosen so that top-level fields rarely decide the answer alone
+            a = r.choice(["imag", "denominator", "real", "numerator", "nosuch", "imag", "denominator"])
+            if r.chance(20):
+                return f"(Type.string.{r.choice(['upper', 'nosuch'])} {r.choice(['==', '!='])} {self.const_str()})"
+            if r.chance(25):
+                return f"({self.const_int()} {self.cmp_op()} Type.varint.{a})"
+            return f"(Type.varint.{a} {self.cmp_op()} {self.const_int()})"
         w = r.below(8)
         if w < 3:
             return f"(Type.string {self.cmp_op()} {self.const_str()})"
